@@ -57,6 +57,9 @@ var apiTexts = map[string]string{
 	"A": "description: text A\nsteps:\n  - name: s1\n    command: echo 1\n  - name: s2\n    command: echo 2\n    depends: [s1]\n",
 	"B": "description: text B\nsteps:\n  - name: s1\n    command: echo one\n  - name: s2\n    command: echo two\n    depends: [s1]\n",
 	"T": "steps:\n  - name: step1\n    command: echo hello\n",
+	// C puts a step in front of s1 and s2, D lists s2 before s1: the position of a step differs from the one in a run recorded under A or B
+	"C": "description: text C\nsteps:\n  - name: s0\n    command: echo 0\n  - name: s1\n    command: echo 1\n  - name: s2\n    command: echo 2\n    depends: [s1]\n",
+	"D": "description: text D\nsteps:\n  - name: s2\n    command: echo 2\n    depends: [s1]\n  - name: s1\n    command: echo 1\n",
 }
 
 const apiBadText = "steps:\n  - name: \n    command: [[[\n"
@@ -71,12 +74,13 @@ type apiRig struct {
 	liveReq            map[string]string
 	stops              int
 	full               map[string]string // request id -> full id used on disk
+	liveDag            map[string]*dag.DAG
 }
 
 func fullApiReq(r string) string { return r + "-api-0123456789" }
 
 func newApiRig(base string, id int) (*apiRig, error) {
-	r := &apiRig{dir: filepath.Join(base, fmt.Sprintf("api%d", id)), servers: map[string]*sock.Server{}, liveReq: map[string]string{}}
+	r := &apiRig{dir: filepath.Join(base, fmt.Sprintf("api%d", id)), servers: map[string]*sock.Server{}, liveReq: map[string]string{}, liveDag: map[string]*dag.DAG{}}
 	r.dagsDir = filepath.Join(r.dir, "dags")
 	os.MkdirAll(r.dagsDir, 0o755)
 	r.argv = filepath.Join(r.dir, "argv.log")
@@ -135,7 +139,7 @@ func (r *apiRig) state() Ev {
 			for _, nd := range st.Nodes {
 				nodes[nd.Step.Name] = nd.Status.String()
 			}
-			for _, s := range []string{"s1", "s2"} {
+			for _, s := range []string{"s0", "s1", "s2"} {
 				if _, ok := nodes[s]; !ok {
 					nodes[s] = "absent"
 				}
@@ -157,9 +161,12 @@ func (r *apiRig) mkStatus(d *dag.DAG, req string, st scheduler.Status, n1, n2 sc
 	s := model.NewStatus(d, nil, st, os.Getpid(), nil, nil)
 	s.RequestID = fullApiReq(req)
 	s.StartedAt = time.Now().Format(time.RFC3339)
-	if len(s.Nodes) >= 2 {
-		s.Nodes[0].Status, s.Nodes[0].StatusText = n1, n1.String()
-		s.Nodes[1].Status, s.Nodes[1].StatusText = n2, n2.String()
+	for _, nd := range s.Nodes {
+		// by name: s2 gets n2, every other step n1
+		nd.Status, nd.StatusText = n1, n1.String()
+		if nd.Step.Name == "s2" {
+			nd.Status, nd.StatusText = n2, n2.String()
+		}
 	}
 	return s
 }
@@ -205,6 +212,7 @@ func (r *apiRig) env(a ApiAction) error {
 		}
 		r.servers[a.D] = srv
 		r.liveReq[a.D] = a.Req
+		r.liveDag[a.D] = d
 	case "env-finish", "env-crash":
 		if srv := r.servers[a.D]; srv != nil {
 			srv.Shutdown()
@@ -213,9 +221,10 @@ func (r *apiRig) env(a ApiAction) error {
 		req := r.liveReq[a.D]
 		delete(r.liveReq, a.D)
 		if a.Op == "env-finish" {
-			d, err := dag.LoadWithoutEval(f)
-			if err != nil {
-				return err
+			// the run finishes with the definition it was started with
+			d := r.liveDag[a.D]
+			if d == nil {
+				return fmt.Errorf("no live run")
 			}
 			var st *model.Status
 			switch a.Status {
@@ -270,7 +279,13 @@ func parseArgvLine(l string) Ev {
 	return e
 }
 
-func (r *apiRig) call(a ApiAction) int {
+func (r *apiRig) call(a ApiAction) (code int) {
+	// the server wraps the handlers in a recoverer: a panicking handler answers 500
+	defer func() {
+		if rec := recover(); rec != nil {
+			code = 500
+		}
+	}()
 	w := httptest.NewRecorder()
 	str := func(s string) *string { return &s }
 	switch a.Op {
@@ -366,6 +381,27 @@ func GenApi(id int, rng *rand.Rand) ApiScenario {
 	nreq := 0
 	pick := func(xs []string) string { return xs[rng.Intn(len(xs))] }
 	n := 8 + rng.Intn(14)
+	if rng.Intn(3) == 0 {
+		// a run recorded under one text, the definition saved with other step positions, then edits of that run
+		d := pick([]string{"a", "b"})
+		nreq++
+		q := fmt.Sprintf("r%d", nreq)
+		reqs[d] = append(reqs[d], q)
+		if rng.Intn(2) == 0 {
+			sc.Ops = append(sc.Ops, ApiAction{Op: "save", D: d, Value: pick([]string{"C", "D", "B"})})
+		}
+		sc.Ops = append(sc.Ops, ApiAction{Op: "env-start", D: d, Req: q})
+		if rng.Intn(4) == 0 {
+			sc.Ops = append(sc.Ops, ApiAction{Op: "env-crash", D: d})
+		} else {
+			sc.Ops = append(sc.Ops, ApiAction{Op: "env-finish", D: d, Status: pick([]string{"finished", "failed", "canceled"})})
+		}
+		sc.Ops = append(sc.Ops, ApiAction{Op: "save", D: d, Value: pick([]string{"A", "C", "C", "D", "D", "E"})})
+		for k := 0; k < 1+rng.Intn(3); k++ {
+			sc.Ops = append(sc.Ops, ApiAction{Op: pick([]string{"mark-success", "mark-failed"}), D: d, Req: q, Step: pick([]string{"s0", "s1", "s2"})})
+		}
+		n += len(sc.Ops)
+	}
 	for len(sc.Ops) < n {
 		d := pick([]string{"a", "a", "b", "b", "c", "ghost"})
 		anyReq := func() string {
@@ -408,7 +444,7 @@ func GenApi(id int, rng *rand.Rand) ApiScenario {
 		case 6:
 			sc.Ops = append(sc.Ops, ApiAction{Op: "stop", D: d})
 		case 7, 8, 9:
-			sc.Ops = append(sc.Ops, ApiAction{Op: pick([]string{"mark-success", "mark-failed"}), D: d, Req: anyReq(), Step: pick([]string{"s1", "s2", "s2", "", "zz"})})
+			sc.Ops = append(sc.Ops, ApiAction{Op: pick([]string{"mark-success", "mark-failed"}), D: d, Req: anyReq(), Step: pick([]string{"s1", "s2", "s2", "s1", "s0", "", "zz"})})
 		case 10:
 			sc.Ops = append(sc.Ops, ApiAction{Op: "retry", D: d, Req: anyReq()})
 		case 11:
@@ -417,7 +453,7 @@ func GenApi(id int, rng *rand.Rand) ApiScenario {
 			if live[d] != "" {
 				continue
 			}
-			sc.Ops = append(sc.Ops, ApiAction{Op: "save", D: d, Value: pick([]string{"A", "B", "bad", "E"})})
+			sc.Ops = append(sc.Ops, ApiAction{Op: "save", D: d, Value: pick([]string{"A", "B", "C", "C", "D", "bad", "E"})})
 		case 13:
 			if live[d] != "" {
 				continue
